@@ -57,7 +57,12 @@ def judge(name, r, what, cls):
 
 
 def values():
-    return A.V() + [{"kty": "RSA", "n": "AQAB", "e": "AQAB"}, "ECDH-ES", "A128GCM", "DEF", "none", ["b64"], ["alg"], ["alg", "enc"], "alg enc zip", "AAAA", "@@", 8, 2 ** 32, 2 ** 63, 1.0, 4096.0, 2147483647.0]
+    return A.V() + [{"kty": "RSA", "n": "AQAB", "e": "AQAB"}, "ECDH-ES", "A128GCM", "DEF", "none", ["b64"], ["alg"], ["alg", "enc"], "alg enc zip", "AAAA", "@@", 8, 2 ** 32, 2 ** 63, 1.0, 4096.0, 2147483647.0] + URLISH
+
+
+# strings of the shape a URL-valued member (jku, x5u) may take: every part present, absent or malformed in turn
+URLISH = ["https://", "https://:443/keys.jwks", "http://:8080", "https:///keys", "https://user:pw@keys.example/", "https://[::1", "https://[::1]:x/", "http://a b/",
+          "https://keys.example:notaport/", "//keys.example/x", "HTTPS://KEYS.EXAMPLE", "https://keys.example/\x00", "https://\u212aeys.example/"]
 
 
 HEADER_NAMES = ["alg", "enc", "zip", "kid", "typ", "cty", "crit", "jku", "jwk", "x5u", "x5c", "x5t", "x5t#S256", "b64",
